@@ -268,6 +268,33 @@ static void memDbg(raw_ostream &OS, const Instruction &I) {
   }
   OS << "]";
 }
+// leaves (byte offset, scalar type) of an object's LLVM type; vector members (SIMD registers, declared may_alias) are reported as nullptr type = "any"
+static void typeLeaves(Type *T, uint64_t off, const DataLayout &DL, std::vector<std::pair<uint64_t, Type *>> &out, unsigned depth = 0) {
+  if (depth > 8) { out.push_back({off, nullptr}); return; }
+  if (auto *ST = dyn_cast<StructType>(T)) {
+    if (ST->isOpaque()) { out.push_back({off, nullptr}); return; }
+    const StructLayout *SL = DL.getStructLayout(ST);
+    for (unsigned i = 0; i < ST->getNumElements(); ++i) typeLeaves(ST->getElementType(i), off + SL->getElementOffset(i), DL, out, depth + 1);
+  } else if (auto *AT = dyn_cast<ArrayType>(T)) {
+    uint64_t es = DL.getTypeAllocSize(AT->getElementType()).getFixedSize();
+    for (uint64_t i = 0; i < AT->getNumElements() && i < 64; ++i) typeLeaves(AT->getElementType(), off + i * es, DL, out, depth + 1);
+  } else if (isa<VectorType>(T)) out.push_back({off, nullptr});
+  else out.push_back({off, T});
+}
+// scalar memory intrinsics that the baseline compiler's headers (g++: xmmintrin.h / emmintrin.h) implement as a plain typed access (*__P of type float / double,
+// no may_alias): used on an object of another scalar type they are a strict-aliasing violation (clang's own headers use may_alias structs, so the IR looks harmless)
+static std::string baseName(StringRef mangled) {
+  std::string d = demangle(mangled.str());
+  size_t p = d.find('(');
+  if (p != std::string::npos) d = d.substr(0, p);
+  return d;
+}
+static const char *typedIntrinsic(StringRef fn0) {
+  std::string fns = baseName(fn0); StringRef fn(fns);
+  if (fn == "_mm_store_sd" || fn == "_mm_storel_pd" || fn == "_mm_storeh_pd" || fn == "_mm_load_sd" || fn == "_mm_load1_pd" || fn == "_mm_load_pd1") return "double";
+  if (fn == "_mm_store_ss" || fn == "_mm_load_ss" || fn == "_mm_load1_ps" || fn == "_mm_load_ps1") return "float";
+  return nullptr;
+}
 static void memcheckFunc(Function &F, const DataLayout &DL, raw_ostream &OS) {
   // kernel meta table: kmeta_<name> = { sizeof(arg0), alignof(arg0), ... }
   std::vector<std::pair<uint64_t, uint64_t>> argInfo;
@@ -282,20 +309,21 @@ static void memcheckFunc(Function &F, const DataLayout &DL, raw_ostream &OS) {
        << ",\"objsize\":" << osize << ",\"need_align\":" << need << ",\"objalign\":" << oalign << ",\"dbg\":";
     memDbg(RS, I); RS << "}";
   };
-  unsigned own = 0;
+  unsigned own = 0; const char *punWant = nullptr; std::string punName;
   auto check = [&](const Instruction &I, const Value *Ptr, uint64_t size, uint64_t need, const char *kind) {
     // accesses written in the kernel itself (innermost frame is the kernel's #line tag) are the harness's, not the library's
     if (const DILocation *L0 = I.getDebugLoc().get()) { if (L0->getFilename().startswith("k_")) { ++own; return; } }
     APInt Off(DL.getIndexTypeSizeInBits(Ptr->getType()), 0);
     const Value *Base = Ptr->stripAndAccumulateConstantOffsets(DL, Off, /*AllowNonInbounds=*/true);
     int64_t off = Off.getSExtValue();
-    uint64_t osize = 0, oalign = 1; const char *objk = nullptr; std::string objn;
+    uint64_t osize = 0, oalign = 1; const char *objk = nullptr; std::string objn; Type *objTy = nullptr;
     if (auto *A = dyn_cast<AllocaInst>(Base)) {
       if (!A->isStaticAlloca() || A->isArrayAllocation()) { ++unknown; return; }
-      osize = DL.getTypeAllocSize(A->getAllocatedType()).getFixedSize(); oalign = A->getAlign().value(); objk = "local"; objn = tyStr(A->getAllocatedType());
+      osize = DL.getTypeAllocSize(A->getAllocatedType()).getFixedSize(); oalign = A->getAlign().value(); objk = "local"; objn = tyStr(A->getAllocatedType()); objTy = A->getAllocatedType();
     } else if (auto *Ar = dyn_cast<Argument>(Base)) {
       if (Ar->getArgNo() >= argInfo.size()) { ++unknown; return; }
       osize = argInfo[Ar->getArgNo()].first; oalign = argInfo[Ar->getArgNo()].second; objk = "arg"; objn = std::to_string(Ar->getArgNo());
+      if (auto *PT = dyn_cast<PointerType>(Ar->getType())) if (!PT->isOpaque()) objTy = PT->getPointerElementType();
       if (osize == 0) { ++unknown; return; }      // a pointer to a scalar may be the first element of a caller's array: extent unknown
     } else if (auto *G = dyn_cast<GlobalVariable>(Base)) {
       osize = DL.getTypeAllocSize(G->getValueType()).getFixedSize(); oalign = G->getAlign().valueOrOne().value(); objk = "global"; objn = G->getName().str();
@@ -306,6 +334,18 @@ static void memcheckFunc(Function &F, const DataLayout &DL, raw_ostream &OS) {
       return;
     }
     bool bad = false;
+    if (punWant && objTy && off >= 0) {
+      std::vector<std::pair<uint64_t, Type *>> leaves; typeLeaves(objTy, 0, DL, leaves);
+      for (auto &lf : leaves) {
+        if (!lf.second) continue;
+        uint64_t ls = DL.getTypeStoreSize(lf.second).getFixedSize();
+        if (lf.first + ls <= (uint64_t)off || lf.first >= (uint64_t)off + size) continue;
+        bool same = (StringRef(punWant) == "double") ? lf.second->isDoubleTy() : lf.second->isFloatTy();
+        if (!same) { std::string nm = punName + " (" + punWant + " access) on a member of type " + tyStr(lf.second); emit(I, "type_pun", kind, objk, nm, off, size, osize, need, oalign); bad = true; break; }
+      }
+      if (!bad) ++ok;
+      return;
+    }
     if (off < 0 || (uint64_t)off + size > osize) { emit(I, "out_of_bounds", kind, objk, objn, off, size, osize, need, oalign); bad = true; }
     if (need > 1) {
       uint64_t a = std::min(need, oalign);
@@ -316,6 +356,23 @@ static void memcheckFunc(Function &F, const DataLayout &DL, raw_ostream &OS) {
   for (auto &BB : F) for (auto &I : BB) {
     if (auto *L = dyn_cast<LoadInst>(&I)) check(I, L->getPointerOperand(), DL.getTypeStoreSize(L->getType()).getFixedSize(), L->getAlign().value(), "load");
     else if (auto *S = dyn_cast<StoreInst>(&I)) check(I, S->getPointerOperand(), DL.getTypeStoreSize(S->getValueOperand()->getType()).getFixedSize(), S->getAlign().value(), "store");
+    else if (auto *CB = dyn_cast<CallBase>(&I)) {
+      Function *CF = CB->getCalledFunction();
+      if (CF && CF->getName().startswith("__verif_typed_access.") && CB->arg_size() == 1) {
+        std::string inm = baseName(CF->getName().substr(strlen("__verif_typed_access."))); StringRef iname(inm);
+        punWant = typedIntrinsic(iname); punName = inm;
+        if (punWant) check(I, CB->getArgOperand(0), StringRef(punWant) == "double" ? 8 : 4, 1, iname.contains("store") ? "store" : "load");
+        punWant = nullptr;
+        continue;
+      }
+      if (auto *MI = dyn_cast<MemIntrinsic>(&I)) {
+        auto *Len = dyn_cast<ConstantInt>(MI->getLength());
+        if (!Len) { ++unknown; continue; }
+        uint64_t n = Len->getZExtValue(); if (n == 0) continue;
+        check(I, MI->getRawDest(), n, 1, isa<MemSetInst>(MI) ? "memset" : "memcpy_dst");
+        if (auto *MT = dyn_cast<MemTransferInst>(MI)) check(I, MT->getRawSource(), n, 1, "memcpy_src");
+      }
+    }
     else if (auto *MI = dyn_cast<MemIntrinsic>(&I)) {
       auto *Len = dyn_cast<ConstantInt>(MI->getLength());
       if (!Len) { ++unknown; continue; }
@@ -329,6 +386,20 @@ static void memcheckFunc(Function &F, const DataLayout &DL, raw_ostream &OS) {
 }
 static bool runMemcheck(Module &Src, const std::string &out, const std::string &prefix) {
   std::unique_ptr<Module> M = CloneModule(Src);
+  {
+    // mark every call of a typed scalar memory intrinsic: a declared-only callee survives inlining and carries the pointer (clang marks the intrinsics nodebug, so
+    // their inlined bodies cannot be recognised afterwards)
+    std::vector<CallBase *> calls;
+    for (Function &F : *M) for (auto &BB : F) for (auto &I : BB) if (auto *CB = dyn_cast<CallBase>(&I)) if (Function *CF = CB->getCalledFunction())
+      if (typedIntrinsic(CF->getName()) && CB->arg_size() >= 1 && CB->getArgOperand(0)->getType()->isPointerTy()) calls.push_back(CB);
+    for (CallBase *CB : calls) {
+      Function *CF = CB->getCalledFunction();
+      Type *PT = CB->getArgOperand(0)->getType();
+      FunctionCallee MF = M->getOrInsertFunction(("__verif_typed_access." + CF->getName()).str(), FunctionType::get(Type::getVoidTy(M->getContext()), {PT}, false));
+      CallInst *NC = CallInst::Create(MF, {CB->getArgOperand(0)}, "", CB);
+      NC->setDebugLoc(CB->getDebugLoc());
+    }
+  }
   for (Function &F : *M) { if (F.isDeclaration()) continue; if (F.hasFnAttribute(Attribute::OptimizeNone)) continue; }
   LoopAnalysisManager LAM; FunctionAnalysisManager FAM; CGSCCAnalysisManager CGAM; ModuleAnalysisManager MAM;
   PassBuilder PB;
